@@ -1,0 +1,36 @@
+//go:build verif
+// +build verif
+
+package redact
+
+import (
+	"github.com/cockroachdb/redact/internal/escape"
+	ifmt "github.com/cockroachdb/redact/internal/rfmt"
+)
+
+// This file exists only in builds with the "verif" tag: re-exports of
+// internal entry points for the runtime monitors under /verif
+// (internal packages cannot be imported from another module).
+
+// VerifInternalEscapeBytes is escape.InternalEscapeBytes.
+func VerifInternalEscapeBytes(b []byte, startLoc int, breakNewLines, strip bool) []byte {
+	return escape.InternalEscapeBytes(b, startLoc, breakNewLines, strip)
+}
+
+// VerifPrinterState is rfmt.VerifPrinterState.
+type VerifPrinterState = ifmt.VerifPrinterState
+
+// VerifPoolNews is rfmt.VerifPoolNews.
+func VerifPoolNews() int64 { return ifmt.VerifPoolNews() }
+
+// VerifDrainPool is rfmt.VerifDrainPool.
+func VerifDrainPool(n int) ([]VerifPrinterState, int) { return ifmt.VerifDrainPool(n) }
+
+// VerifResetSafeTypes is rfmt.VerifResetSafeTypes.
+func VerifResetSafeTypes() { ifmt.VerifResetSafeTypes() }
+
+// VerifSafeTypeCount is rfmt.VerifSafeTypeCount.
+func VerifSafeTypeCount() int { return ifmt.VerifSafeTypeCount() }
+
+// VerifHasErrorFn is rfmt.VerifHasErrorFn.
+func VerifHasErrorFn() bool { return ifmt.VerifHasErrorFn() }
